@@ -358,8 +358,17 @@ var rewrites = []rewrite{
 		q, ok := insertAt(p[1:], r, "/")
 		return pre + p[:1] + q + rest, ok
 	}},
+	{"dupfirst", func(s string, r *rng) (string, bool) {
+		// after an explicit authority ("scheme://host", the empty one of "file://" included) the path may also begin with a
+		// doubled slash: an empty first segment, not an authority
+		pre, p, rest := pathOf(s)
+		if !strings.Contains(pre, "://") || !strings.HasPrefix(p, "/") || strings.HasPrefix(p, "//") {
+			return s, false
+		}
+		return pre + "/" + p + rest, true
+	}},
 	{"file1", func(s string, r *rng) (string, bool) {
-		if strings.HasPrefix(s, "file:///") {
+		if strings.HasPrefix(s, "file:///") && !strings.HasPrefix(s, "file:////") {
 			return "file:/" + s[8:], true
 		}
 		return s, false
@@ -371,7 +380,7 @@ var rewrites = []rewrite{
 		return s, false
 	}},
 	{"barepath", func(s string, r *rng) (string, bool) {
-		if strings.HasPrefix(s, "file:///") {
+		if strings.HasPrefix(s, "file:///") && !strings.HasPrefix(s, "file:////") {
 			return s[7:], true
 		}
 		return s, false
@@ -473,9 +482,84 @@ func normUnreserved(s string) string {
 type c12Input struct {
 	Ref  string `json:"ref"`
 	Base string `json:"base"`
+	Hop2 string `json:"hop2,omitempty"` // two-hop form: Ref leads from the root at Base into a document whose own reference is Hop2
+}
+
+// c12Resolve: RFC 3986 reference resolution, by net/url.
+func c12Resolve(base, ref string) (string, bool) {
+	b, err1 := url.Parse(base)
+	r, err2 := url.Parse(ref)
+	if err1 != nil || err2 != nil {
+		return "", false
+	}
+	w := b.ResolveReference(r)
+	w.OmitHost = false
+	w.Fragment, w.RawFragment = "", ""
+	return normUnreserved(w.String()), true
+}
+
+// checkC12TwoHop: a parameter and a response of the root document at Base are references (Ref) into a second document, whose
+// schemas are references (Hop2) into a third one.  Every reference is located from the document that contains it: the loader
+// must be asked for RFC(Base, Ref) and then for RFC(RFC(Base, Ref), Hop2), and for nothing else.
+func checkC12TwoHop(in c12Input) (msg, shape string, obs, exp interface{}) {
+	defer func() {
+		if r := recover(); r != nil {
+			msg, shape = fmt.Sprintf("expansion panics: %v", r), "panic"
+		}
+	}()
+	t1, ok1 := c12Resolve(in.Base, in.Ref)
+	if !ok1 {
+		return
+	}
+	t2, ok2 := c12Resolve(t1, in.Hop2)
+	if !ok2 || t1 == normUnreserved(in.Base) || t2 == t1 || t2 == normUnreserved(in.Base) {
+		return
+	}
+	second := `{"swagger":"2.0","info":{"title":"second","version":"1"},"paths":{},` +
+		`"parameters":{"q":{"name":"q","in":"body","schema":{"$ref":"` + in.Hop2 + `#/definitions/y"}}},` +
+		`"responses":{"r":{"description":"d","schema":{"$ref":"` + in.Hop2 + `#/definitions/y"}}},` +
+		`"definitions":{"y":{"type":"integer"}}}`
+	third := `{"definitions":{"y":{"type":"string","description":"third"}}}`
+	root := `{"swagger":"2.0","info":{"title":"root","version":"1"},"definitions":{"y":{"type":"boolean"}},` +
+		`"paths":{"/p":{"get":{"parameters":[{"$ref":"` + in.Ref + `#/parameters/q"}],"responses":{"200":{"$ref":"` + in.Ref + `#/responses/r"}}}}}}`
+	var asked []string
+	loader := func(u string) (json.RawMessage, error) {
+		k := normUnreserved(stripFragment(u))
+		asked = append(asked, k)
+		switch k {
+		case t1:
+			return json.RawMessage(second), nil
+		case t2:
+			return json.RawMessage(third), nil
+		case normUnreserved(in.Base):
+			return json.RawMessage(root), nil
+		}
+		return nil, fmt.Errorf("no document at %s", u)
+	}
+	sw := new(spec.Swagger)
+	if err := json.Unmarshal([]byte(root), sw); err != nil {
+		return
+	}
+	err := spec.ExpandSpec(sw, &spec.ExpandOptions{RelativeBase: in.Base, PathLoader: loader})
+	for _, a := range asked {
+		if a != t1 && a != t2 && a != normUnreserved(in.Base) {
+			return "after a first hop, the loader is asked for a document other than the RFC 3986 target of the second reference", "e2e-two-hop", a, []string{t1, t2}
+		}
+	}
+	if err != nil {
+		return "two-hop expansion fails although every RFC 3986 target is served", "e2e-two-hop", err.Error(), []string{t1, t2}
+	}
+	out, _ := json.Marshal(sw.Paths)
+	if !strings.Contains(string(out), `"third"`) || strings.Contains(string(out), `"boolean"`) || strings.Contains(string(out), `"integer"`) {
+		return "the schema reached through two hops is not the one in the RFC 3986 target of the second reference", "e2e-two-hop", string(out), t2
+	}
+	return
 }
 
 func checkC12(in c12Input) (msg, shape string, obs, exp interface{}) {
+	if in.Hop2 != "" {
+		return checkC12TwoHop(in)
+	}
 	defer func() {
 		if r := recover(); r != nil {
 			msg, shape = fmt.Sprintf("normalizeURI panics: %v", r), "panic"
@@ -568,9 +652,25 @@ func oracleC12(r *rng, n int, tier string) *oracleResult {
 		maxSegs = 4
 	}
 	for _, b := range c12Bases {
-		c12Refs(maxSegs, func(ref string) { try(c12Input{ref, b}) })
+		c12Refs(maxSegs, func(ref string) { try(c12Input{Ref: ref, Base: b}) })
 		for _, ref := range []string{"", "#", "#/x", "http://o/x.json", "http://o/x.json#/y", "file:///z/x.json", "https://o:444/a/b.json#/c"} {
-			try(c12Input{ref, b})
+			try(c12Input{Ref: ref, Base: b})
+		}
+	}
+	// two hops: the first reference leads into another document (next to the root, in another folder, at the same path on
+	// another scheme, host or port), whose own references are relative, root-relative or fragment-carrying
+	for _, b := range c12Bases {
+		bu, _ := url.Parse(b)
+		firsts := []string{"second.json", "sub/second.json", "../second.json", "/abs/second.json"}
+		for _, twin := range []string{"https://other.example" + bu.Path, "http://" + bu.Host + ":8080" + bu.Path, "https://" + bu.Host + bu.Path} {
+			if tu, err := url.Parse(twin); err == nil && tu.Host != "" && tu.Host != ":8080" && twin != b {
+				firsts = append(firsts, twin)
+			}
+		}
+		for _, f := range firsts {
+			for _, h := range []string{"third.json", "sub/third.json", "../models/third.json", "/m/third.json"} {
+				try(c12Input{Ref: f, Base: b, Hop2: h})
+			}
 		}
 	}
 	// documents whose location merely CONTINUES the location of the base as a string (spec.json.bak next to spec.json, a folder
@@ -582,12 +682,12 @@ func oracleC12(r *rng, n int, tier string) *oracleResult {
 		}
 		for _, suf := range []string{".bak", "5", ".d/types.json", "-v2", "%20copy"} {
 			for _, pre := range []string{"", "./"} {
-				try(c12Input{pre + name + suf, b})
-				try(c12Input{pre + name + suf + "#/definitions/x", b})
+				try(c12Input{Ref: pre + name + suf, Base: b})
+				try(c12Input{Ref: pre + name + suf + "#/definitions/x", Base: b})
 			}
 		}
-		try(c12Input{b + ".old", b})
-		try(c12Input{b + ".old#/definitions/x", b})
+		try(c12Input{Ref: b + ".old", Base: b})
+		try(c12Input{Ref: b + ".old#/definitions/x", Base: b})
 	}
 	// random longer references, including escapes that decode to reserved characters
 	segs := []string{"a", "b.c", ".", "..", "%20x", "é", "x%2Fy", "x%2fy", "%2E%2E", "%2e", "q%3Fr", "s%23t", "u%25v", "w+x", "y;z",
@@ -606,9 +706,9 @@ func oracleC12(r *rng, n int, tier string) *oracleResult {
 		if r.chance(1, 2) {
 			ref += "#/definitions/" + r.pick([]string{"x", "a~1b", "%25"})
 		}
-		try(c12Input{ref, c12Bases[r.intn(len(c12Bases))]})
+		try(c12Input{Ref: ref, Base: c12Bases[r.intn(len(c12Bases))]})
 	}
-	res.Samples = []interface{}{c12Input{"../b.c/%20x/f.json#/definitions/x", "file:///r/a/root.json"}}
+	res.Samples = []interface{}{c12Input{Ref: "../b.c/%20x/f.json#/definitions/x", Base: "file:///r/a/root.json"}}
 	return dedupFailures(res)
 }
 
